@@ -496,7 +496,8 @@ func randomMapTrace(id int, seed int64, steps int, out *json.Encoder, fixed *map
 		if profile == "versions" {
 			// the shared cache is what makes versions meet in the same node objects
 			cfg.Cache = []string{"large", "large", "tiny", "none"}[rng.Intn(4)]
-			cfg.NK = 4 + rng.Intn(4)
+			cfg.NK = 5 + rng.Intn(5)
+			cfg.Bf = []uint{2, 2, 2, 3, 4}[rng.Intn(5)]
 		}
 		if profile == "c08" {
 			cfg.NK = 6
@@ -590,20 +591,28 @@ func randomMapTrace(id int, seed int64, steps int, out *json.Encoder, fixed *map
 					r.exec(absOp{Op: "del", H: h, K: pick, V: sh.live[h][pick]})
 					delete(sh.live[h], pick)
 				}
+				// the neighbours are edited on the same handle, or on another one (which may share nodes with it through a
+				// clone or the cache)
+				hn := h
+				if rng.Intn(2) == 0 {
+					if g := pickLive(); g != 0 {
+						hn = g
+					}
+				}
 				for _, nb := range []int{pick - 1, pick + 1, pick - 2, pick + 2} {
 					if nb < 1 || nb > cfg.NK || rng.Intn(3) == 0 {
 						continue
 					}
-					if old, present := sh.live[h][nb]; present && rng.Intn(3) == 0 {
-						r.exec(absOp{Op: "del", H: h, K: nb, V: old})
-						delete(sh.live[h], nb)
+					if old, present := sh.live[hn][nb]; present && rng.Intn(3) == 0 {
+						r.exec(absOp{Op: "del", H: hn, K: nb, V: old})
+						delete(sh.live[hn], nb)
 					} else {
 						v := 1 + rng.Intn(cfg.NV)
 						if present {
 							v = old%cfg.NV + 1
 						}
-						r.exec(absOp{Op: "ins", H: h, K: nb, V: v})
-						sh.live[h][nb] = v
+						r.exec(absOp{Op: "ins", H: hn, K: nb, V: v})
+						sh.live[hn][nb] = v
 					}
 				}
 			}
